@@ -20,7 +20,8 @@ TRUSTED = [
     "(test, exception) lists; the order of the blocks in `_check_all` and `__init__`) and proved equal to the "
     "hand-written tables; the extractor and the table of test texts -> `Pred` are trusted",
     "structured arguments (Binary labels, Exponential utility/measure/candidates, the value to randomise, Vector n) "
-    "are abstracted to one flag per test; float(10**400)-style OverflowError of int->float conversion is not modelled",
+    "are abstracted to one flag per test; float(10**400)-style OverflowError of int->float conversion and numpy ufuncs on "
+    "Python ints beyond 64 bits (GeometricFolded's np.round: TypeError) are not modelled",
     "`Valid` states the documented ranges; it is deliberately silent about NaN in parameters the property does not "
     "list (Vector alpha, clip_to_norm's clip, bounds): `alpha <= 0`, `clip <= 0`, `lower > upper` are False for NaN "
     "and the code accepts them — reported as notes by every run, not as violations",
@@ -122,7 +123,7 @@ def enc(v):
 
 
 def dec(s):
-    return eval(s, {"__builtins__": {}, "nan": NAN, "inf": INF})  # noqa: S307 - our own replay files
+    return eval(s, {"__builtins__": {}, "nan": NAN, "inf": INF, "np": np})  # noqa: S307 - our own replay files
 
 
 INVALID_CAT = [-1.0, -5e-324, NAN, INF, -INF, 1 + 1e-9, "1", 1j, None]
@@ -137,6 +138,19 @@ CAT = INVALID_CAT + VALID_CAT
 
 def is_real(v):
     return isinstance(v, Real)
+
+
+def mixed_type_bounds():
+    """(lower, upper) pairs whose ORDER is only visible to an exact comparison: Python ints beyond 2^53 against floats (the
+    float difference rounds to 0), fixed-width numpy integers at their extremes (a difference wraps around), inversions
+    smaller than one double spacing; inverted and correctly ordered ones"""
+    i64, i32 = np.int64, np.int32
+    inv = [(10 ** 17 + 5, 1e17), (2 ** 53 + 1, float(2 ** 53)), (10 ** 30 + 1, 1e30), (-(10 ** 17), -1e17 - 32),
+           (i64(2 ** 63 - 1), i64(-2)), (i64(2 ** 62), i64(-2 ** 62 - 1)), (i32(2 ** 31 - 1), i32(-2)), (i64(5), i64(3)),
+           (i64(2 ** 63 - 1), -1.0), (2 ** 63, i64(2 ** 63 - 1)), (np.float32(1.0000001), np.float32(1.0)),
+           (np.float64(1e17) + 16, 10 ** 17 + 1), (2 ** 60 + 1, i64(2 ** 60))]
+    ordered = [(b, a) for a, b in inv] + [(i64(0), i64(10)), (float(2 ** 53), 2 ** 53), (i32(-5), 3.5)]
+    return inv + ordered
 
 
 def near_inversions():
@@ -484,7 +498,7 @@ def mech_cases(ctx):
     delta_grid = [0, 0.0, 0.1, 0.5, 0.6, 1.0, 1.1, NAN, "1", None, -5e-324]
     bounds_grid = [(0, 1), (1, 0), (1, 1), (NAN, 1), (0, NAN), (-INF, INF), (INF, -INF), (0.5, 1.5), (0.3, 1), ("0", 1),
                    (None, 1), (0.0, 1.0), (1.0, 0.0), (0.5000000001, 3), (2, 1.5), (True, 3), (0, 1j), (0, 10 ** 9), (1j, 0.3),
-                   (1j, 2), ('1', 0.3), (0.3, None)] + near_inversions()[::3] + [(100.0005, 100.0), (math.nextafter(3.0, INF), 3.0)]
+                   (1j, 2), ('1', 0.3), (0.3, None)] + mixed_type_bounds() + near_inversions()[::3] + [(100.0005, 100.0), (math.nextafter(3.0, INF), 3.0)]
     for cls in SPEC:
         cp = ctor_params(cls)
         for p in cp:
@@ -502,6 +516,9 @@ def mech_cases(ctx):
                     cases.append((cls, "ctor", {"epsilon": e, "delta": d}))
         if "lower" in cp:
             for lo, up in bounds_grid:
+                if cls == "GeometricFolded" and any(isinstance(x, int) and not isinstance(x, bool) and abs(x) >= 2 ** 62
+                                                    for x in (lo, up)):
+                    continue    # np.round() of a Python int beyond 64 bits raises TypeError inside numpy: not modelled
                 cases.append((cls, "ctor", {"lower": lo, "upper": up}))
                 cases.append((cls, "rand", {"lower": lo, "upper": up}))
     # construct -> use -> assign an invalid value -> randomise must raise (and the unchanged instance still works)
